@@ -1,7 +1,7 @@
 (* C04 — Durability: late TRANSIENT_LOCAL readers get history, VOLATILE readers do not.
    Model: Proto/RelModel.v.  AMatch rel tl = the data reader (RELIABLE iff rel, TRANSIENT_LOCAL iff tl)
    is created and discovery completes: add_matched_reader computes the proxy's first relevant sample. *)
-From DustDDS Require Import Base.Machine Proto.RelModel Proto.RelProofs Proto.RelSoundG Proto.RelLive Proto.RelWitness.
+From DustDDS Require Import Base.Machine Proto.RelModel Proto.RelProofs Proto.RelSoundG Proto.RelLive Proto.RelLiveH Proto.RelWitness.
 Open Scope Z_scope.
 
 (* A VOLATILE reader - RELIABLE or BEST_EFFORT - never presents a sample that was written before it was
@@ -45,19 +45,19 @@ Theorem C04_wait_for_historical_data_sound :
       forall c, In c (s_changes s) -> rp_fr p < c_sn c -> c_sn c <= wp_la w -> In c (rd_pres r).
 Proof. exact wfh_sound. Qed.
 
-(* HISTORY is eventually complete, the proved part (stage 1; histories with holes are exercised by the
-   scenarios of the check and the examples below): KEEP_ALL writer, unfragmented samples, no removal, no deletion, at
-   most 256 samples: after any such schedule (lossy catch-up included) and k + 1 healing rounds, when nothing
-   is queued any more, a RELIABLE TRANSIENT_LOCAL reader - late or not - has been given EVERY change the
-   writer retains *)
+(* HISTORY is eventually complete, the proved part: ANY history QoS (retained histories with holes included:
+   KEEP_LAST(d) with any number of instances), unfragmented samples, no explicit removal, no deletion, at most 256
+   samples: after any such schedule (lossy catch-up included) and k + 1 healing rounds, when nothing is queued any
+   more, a RELIABLE TRANSIENT_LOCAL reader - late or not - has been given EVERY change the writer retains.
+   `_partial`: fragmented samples are not covered by the theorem. *)
 Theorem C04_transient_local_history_partial :
   forall cf sched k,
-    0 < fsz cf -> depth cf = 0 -> forallb (live_act cf) sched = true ->
+    0 < fsz cf -> forallb (live_act cf) sched = true ->
     let s := run cf init (sched ++ heal (S k)) in
     s_last s <= 256 -> s_net s = [] ->
     forall p r w, s_rp s = Some p -> rp_rel p = true -> rp_tl p = true -> s_rd s = Some r -> rd_wp r = Some w ->
       forall c, In c (s_changes s) -> In c (rd_pres r).
-Proof. exact transient_local_history_unfragmented. Qed.
+Proof. exact transient_local_history_holes. Qed.
 
 (* the schedule that exposed the GAP skip, on the repaired code: retained history {1,3} (KEEP_LAST(1), two
    instances), DATA(1) lost: wait_for_historical_data stays pending until 1 and 3 have been presented *)
